@@ -78,7 +78,7 @@ LEVEL_NOTE = ('Trusted: CPython tracebacks, sys.settrace reachability, the conve
               'exceptions caught and re-raised, chains > 5 functions.')
 
 _KEEP = []
-EXCL = ('no_all_branch_rebind_in_nested_block', 'no_handler_only_binding', 'no_try_else', 'no_for_target_rebind',
+EXCL = ('no_all_branch_rebind_in_nested_block', 'no_handler_only_binding', 'no_for_target_rebind',
         'no_lambda_capture_across_rebind', 'no_impure_chain_middle')
 # shapes of C12 findings, excluded by construction (each redirected draw is counted)
 # FC12a, FC12e and FC12f were repaired in /repo (fix: commits): their shapes are generated again
@@ -167,6 +167,11 @@ FAIL_RAISES = [
     ('raise_U2', "raise U2('m')", 'U2'), ('raise_U9', "raise U9('m')", 'U9'),
     ('raise_U3', 'raise U3(a, 2)', 'U3'), ('raise_U4', 'raise U4(1, k=b)', 'U4'), ('raise_U5', "raise U5('m')", 'U5'),
     ('raise_U6', 'raise U6(1, 2)', 'U6'), ('raise_U7', "raise U7('m')", 'U7'), ('raise_U8', 'raise U8(a, b)', 'U8'),
+    # messages with a trailing newline, blank lines and the other characters str.splitlines breaks at
+    ('raise_msg_trailing_newline', "raise ValueError('tail\\n')", 'ValueError'), ('raise_msg_crlf', "raise U1('a\\r\\nb')", 'U1'),
+    ('raise_msg_formfeed', "raise RuntimeError('x\\x0cy\\x0b')", 'RuntimeError'), ('raise_msg_u2028', "raise U5('u\\u2028v\\x85w')", 'U5'),
+    ('raise_msg_blank_lines', "raise TypeError('p\\n\\n  q\\n')", 'TypeError'), ('raise_msg_empty', "raise ValueError('')", 'ValueError'),
+    ('raise_msg_only_newlines', "raise U1('\\n\\n')", 'U1'), ('raise_msg_percent_braces', "raise U1('100%% {x} %s')", 'U1'),
     ('assert_msg', "assert a == 98765, 'boom%d' % a", 'AssertionError'), ('assert_plain', 'assert a == 98765', 'AssertionError'),
     ('del_key', "del d['zz']", 'KeyError'), ('del_idx', 'del l[99]', 'IndexError'), ('del_attr', 'del o.nope', 'AttributeError'),
     ('unpack_assign', 'q8, q9 = (1, 2, 3)', 'ValueError'), ('unpack_for', 'for q8, q9 in [(1, 2, 3)]:\n    pass', 'ValueError'),
